@@ -1018,7 +1018,11 @@ def stream_out_transform(body, stream_vars, str_macros=()):
                 if o in ('dec', 'fixed', 'std::skipws', 'skipws', 'std::fixed', 'std::dec'):
                     calls.append('out_%s(%s);%s' % (o.split('::')[-1], target, nl))
                 elif re.match(r'^(std::)?resetiosflags\(.*\)$', o):
-                    calls.append('out_resetflags(%s);%s' % (target, nl))
+                    arg = re.match(r'^(std::)?resetiosflags\((.*)\)$', o).group(2).strip()
+                    if re.match(r'^\w+->flags\(\)$', arg):       # all flags currently set
+                        calls.append('out_resetflags(%s);%s' % (target, nl))
+                    else:                                          # a mask: which flag groups does it name?
+                        calls.append('out_resetflags_mask(%s, %d, %d, %d);%s' % (target, int('basefield' in arg), int('floatfield' in arg), int('adjustfield' in arg), nl))
                 elif o == 'hex':
                     calls.append('out_hex(%s);%s' % (target, nl))
                 elif re.match(r'^setw\((.*)\)$', o):
